@@ -13,7 +13,20 @@
 #include <type_traits>
 #include <vector>
 
+#ifdef _OPENMP
+#include <omp.h>
+#endif
+
 namespace vf {
+
+/// Number of OpenMP threads of the next construction (no-op in builds without OpenMP: TSan and libFuzzer variants).
+inline void vf_set_threads(int t) {
+#ifdef _OPENMP
+    omp_set_num_threads(t);
+#else
+    (void) t;
+#endif
+}
 
 using i128 = __int128;
 
